@@ -150,6 +150,7 @@ let () =
            | "upper" -> hex (nl_upper (s 0))
            | "lower" -> hex (nl_lower (s 0))
            | "utf8char" -> res hex (nl_utf8char (n 0))
+           | "utf8codepoint" -> res dec_of_z (nl_utf8codepoint (s 0) (n 1) (int_of_z (n 2) = 0))
            | "pack1" ->
              (* only the formats  [<>=]?[iI]<size>  are modelled *)
              let f = String.concat "" (List.map (fun c -> String.make 1 (Char.chr (int_of_z c))) (s 0)) in
